@@ -35,7 +35,14 @@ type Plan struct {
 	OutOnly         bool // only OUT| lines are program output (C12)
 	Progs           []Prog
 	PackSize        int
-	ConfirmCap      int // fresh confirmations per (form, mode, configuration)
+	ConfirmCap      int // fresh confirmations per (kind of difference, mode, feature set)
+	// ComboModes, when set, are the only type modes in which configurations
+	// that deviate from the baseline in more than one setting are run (quick
+	// tier); single-setting configurations always run in every mode.
+	ComboModes []string
+	// DiagModes, when it has an entry for a diagnostics mode, lists the only
+	// type modes that diagnostic is run in (quick tier).
+	DiagModes map[string][]string
 }
 
 func (p *Plan) modeApplies(cfg Config, mode string) bool {
